@@ -11,6 +11,8 @@ from run import Case
 import zoo
 from props.c01 import mutate, fresh_keys
 
+from kernels_tie import optional_eq as optional_obligation  # noqa: F401  (`_eq_fn` regenerated from node.py: optional bridge)
+
 PROPERTY = "C02"
 LEAN_MODULE = "PyOak.Props.C02"
 THEOREMS = ["PyOak.C02." + t for t in ["eq_total", "eq_iff", "eq_refl", "eq_symm", "eq_trans", "ne_eq_not",
